@@ -364,8 +364,15 @@ func (s *Syncer) handleRPC(id types.Specifier, stream *gateway.Stream, origin *P
 			return nil
 		}
 		bid := r.Header.ID()
-		if _, ok := s.cm.State(bid); ok {
-			return nil // already seen
+		if known, ok := s.cm.State(bid); ok {
+			// already seen - but "seen" is not "adopted": a block can be in our
+			// store without being on our best chain (e.g. it arrived as the valid
+			// prefix of a chain whose reorg failed and was rolled back). If the
+			// peer announces such a block and it outweighs our tip, sync from it.
+			if known.SufficientlyHeavierThan(s.cm.TipState()) {
+				s.resync(origin, "peer relayed a v2 header we know but have not adopted")
+			}
+			return nil
 		} else if bid.CmpWork(cs.PoWTarget()) < 0 {
 			return s.ban(origin, errors.New("peer sent v2 header with insufficient work"))
 		} else if r.Header.ParentID != s.cm.Tip().ID {
@@ -393,8 +400,12 @@ func (s *Syncer) handleRPC(id types.Specifier, stream *gateway.Stream, origin *P
 			return nil
 		}
 		bid := r.Block.ID(cs)
-		if _, ok := s.cm.State(bid); ok {
-			return nil // already seen
+		if known, ok := s.cm.State(bid); ok {
+			// already seen, but possibly never adopted (see RelayV2Header)
+			if known.SufficientlyHeavierThan(s.cm.TipState()) {
+				s.resync(origin, "peer relayed a v2 outline we know but have not adopted")
+			}
+			return nil
 		} else if r.Block.ParentID != s.cm.Tip().ID {
 			// block extends a sidechain, which peer (if honest) believes to be the
 			// heaviest chain
